@@ -3,7 +3,7 @@ PROP = {'engine': 'stack',
  'test': 'TestC14',
  'level': 'exploration',
  'quick': {'checks': 400, 'shards': 12, 'timeout': 1200},
- 'thorough': {'checks': 700, 'shards': 14, 'timeout': 3400},
+ 'thorough': {'checks': 1500, 'shards': 14, 'timeout': 3400},
  'rule': 'rapid draws 2-4 invocations on one instance; response and event sizes from {0, 1, limit/2, limit-2 .. limit+2, limit+4096} (limit = 6 MiB '
          '+ 100) or small, in every position, contents zero/ascii/random; 0-1 extension. Oracle: response <= limit -> 202 and the exact bytes at the '
          'caller; > limit -> 413 RequestEntityTooLarge to the runtime and a Function.ResponseSizeTooLarge JSON naming both sizes to the caller; '
